@@ -313,6 +313,20 @@ Curves:
 		hs.chachaOk = rule.Chacha20
 	}
 
+	// See https://tools.ietf.org/html/draft-ietf-tls-downgrade-scsv-00.
+	// Note: checked before session resumption, a fallback connection must be
+	// refused whether or not it resumes a session (RFC 7507 Section 3).
+	for _, id := range hs.clientHello.cipherSuites {
+		if id == TLS_FALLBACK_SCSV {
+			// The client is doing a fallback connection.
+			if hs.clientHello.vers < c.config.maxVersion() {
+				c.sendAlert(alertInappropriateFallback)
+				return false, errors.New("tls: client using inppropriate protocol fallback")
+			}
+			break
+		}
+	}
+
 	if hs.checkForResumption() {
 		return true, nil
 	}
@@ -373,18 +387,6 @@ Curves:
 		state.TlsHandshakeNoSharedCipherSuite.Inc(1)
 		return false, fmt.Errorf("tls: no cipher suite supported by both client and server: %v",
 			hs.clientHello.cipherSuites)
-	}
-
-	// See https://tools.ietf.org/html/draft-ietf-tls-downgrade-scsv-00.
-	for _, id := range hs.clientHello.cipherSuites {
-		if id == TLS_FALLBACK_SCSV {
-			// The client is doing a fallback connection.
-			if hs.clientHello.vers < c.config.maxVersion() {
-				c.sendAlert(alertInappropriateFallback)
-				return false, errors.New("tls: client using inppropriate protocol fallback")
-			}
-			break
-		}
 	}
 
 	hs.validateHttp2Accepted()
